@@ -208,7 +208,7 @@ def run(out: Outcome, drv):
             ctxs = freeze(ctxs)
         cases.append(("synthetic", n, ctxs, None))
     for _ in range(n_str):
-        tab = sc.gen_table(rng, 9)
+        tab = sc.gen_table(rng, 9, allow_nat=True)
         cx = sc.gen_config(rng, tab, tests=[t for t in sc.usable_tests(tab) if t != "probe"])
         fe = rng.choice(["pandas", "numpy", "xarray"])
         try:
